@@ -183,6 +183,19 @@ def two_level_models():
                     yield (k, [x, y], o)
 
 
+def two_level_models_rev():
+    """the mirror scope: [leaf, inner group] - a sibling particle BEFORE a nested group (the nested group is then re-entered after the sibling
+    in every repetition of the outer group).  69 888 models, fixed order."""
+    lv = leaves()
+    inner = [(k, [x], o) for k in ('seq', 'cho') for x in lv for o in OCC[:4]] \
+          + [(k, [x, y], o) for k in ('seq', 'cho') for x in lv[:8] for y in lv[:8] for o in OCC[:4]]
+    for k in ('seq', 'cho'):
+        for o in OCC[:4]:
+            for x in inner:
+                for y in lv:
+                    yield (k, [y, x], o)
+
+
 def variant_models():
     """Leaf variants named by the property: wildcards, all groups; small, exhaustive."""
     occ = OCC[:4]
